@@ -230,8 +230,11 @@ func (e *equiv) schema(a, b *node, where string) bool {
 	for _, k := range ks {
 		av, ain := am[k]
 		bv, bin := bm[k]
-		if k == "x-go-gen-location" && ignoreGenLoc && !ain {
+		if k == "x-go-gen-location" && !ain && (ignoreGenLoc || tolerateGenLoc) {
 			continue
+		}
+		if k == "x-go-gen-location" && ain != bin {
+			meaningSig = "gen-location-marker-outside-new-definition"
 		}
 		if ain != bin {
 			return e.failf(where, "keyword %q present on one side only (input %v, output %v)", k, ain, bin)
@@ -496,7 +499,21 @@ func reachableDefs(in *bundleView, removeUnused bool) map[string]bool {
 }
 
 // checkMeaning is the C01 oracle. Returns "" or the first mismatch.
+// meaningSig is set by checkMeaning to a stable signature of the mismatch it reports ("" if none in particular).
+var meaningSig string
+
+// tolerateGenLoc: when set, an x-go-gen-location marker found anywhere in the output is not a difference (used by
+// the properties that only borrow the C01 oracle for "same meaning": C03, C05, C06, C09).
+var tolerateGenLoc bool
+
+func checkMeaningTolerant(disk map[string]string, rootPath string, out []byte, opts FlatOpts) (clause, detail string) {
+	tolerateGenLoc = true
+	defer func() { tolerateGenLoc = false }()
+	return checkMeaning(disk, rootPath, out, opts)
+}
+
 func checkMeaning(disk map[string]string, rootPath string, out []byte, opts FlatOpts) (clause, detail string) {
+	meaningSig = ""
 	in, _ := newView(disk, rootPath)
 	outDisk := map[string]string{}
 	for p, s := range disk {
